@@ -318,6 +318,7 @@ type c02RW struct {
 	body   bytes.Buffer
 	onCode func(code int)
 	cn     chan bool
+	point  bool // shared scenarios: handing the body to the client is a point other requests can precede
 }
 
 func (w *c02RW) Header() http.Header {
@@ -338,6 +339,9 @@ func (w *c02RW) WriteHeader(code int) {
 }
 
 func (w *c02RW) Write(p []byte) (int, error) {
+	if w.point {
+		vfs.Point("client:write")
+	}
 	if w.code == 0 {
 		w.WriteHeader(200)
 	}
@@ -902,13 +906,25 @@ type c02Shared struct {
 	Kind      string `json:"kind"` // "shared"
 	Prelude   string `json:"prelude"`
 	SizeY     int    `json:"size_y"`
+	// YGet: the second request is a GET of a block W stored intact beforehand (instead of PUT Y);
+	// XGet: the first request is such a GET (instead of PUT X).  The client connection of a GET is
+	// a filesystem-like point of its own ("client:write", just before the body is handed over).
+	YGet bool `json:"y_get,omitempty"`
+	XGet bool `json:"x_get,omitempty"`
 	Serialize bool   `json:"serialize"`
 	K         int    `json:"k"`
 	Bound     int    `json:"bound"`
 }
 
 func (c c02Shared) name() string {
-	return fmt.Sprintf("shared:prelude=%s sizeY=%d serialize=%v", c.Prelude, c.SizeY, c.Serialize)
+	n := fmt.Sprintf("shared:prelude=%s sizeY=%d serialize=%v", c.Prelude, c.SizeY, c.Serialize)
+	if c.XGet {
+		n += " X=GET"
+	}
+	if c.YGet {
+		n += " Y=GET"
+	}
+	return n
 }
 
 // c02FailingBody delivers data, then fails like a connection that went away.
@@ -927,11 +943,16 @@ func (b *c02FailingBody) Read(p []byte) (int, error) {
 }
 func (b *c02FailingBody) Close() error { return nil }
 
+var c02BigBufs [][]byte
+
 func c02SharedRun(r *vrep.Report, base string, c c02Shared) (int, int64) {
 	X := c02Gen(11, 5)
 	Y := c02Gen(12, c.SizeY)
 	Z := c02Gen(13, 5)
 	HX, HY, HZ := c02MD5(X), c02MD5(Y), c02MD5(Z)
+	W := c02Gen(14, 5)
+	HW := c02MD5(W)
+	var getX, getY *c02RW
 	scn := c02Scn{Size: 5, Prev: "absent", Layout: "w", Serialize: c.Serialize}
 	var roots []string
 	var init []map[string]c02File
@@ -944,6 +965,13 @@ func c02SharedRun(r *vrep.Report, base string, c c02Shared) (int, int64) {
 		vsched.Quiet(true)
 		vfs.BranchOnlyAtPoints(true)
 		roots = scn.setup(base, X, HX)
+		if c.XGet || c.YGet {
+			dir := filepath.Join(roots[0], HW[:3])
+			c02Must(os.MkdirAll(dir, 0755))
+			c02Must(ioutil.WriteFile(filepath.Join(dir, HW), W, 0644))
+			c02Must(os.Chtimes(filepath.Join(dir, HW), c02OldTime, c02OldTime))
+		}
+		getX, getY = nil, nil
 		init = make([]map[string]c02File, len(roots))
 		for p := range roots {
 			init[p] = c02Snapshot(roots[p])
@@ -952,6 +980,26 @@ func c02SharedRun(r *vrep.Report, base string, c c02Shared) (int, int64) {
 		// a pool of its own per execution (small buffers: the blocks have 5 bytes), so that nothing
 		// an execution did to the pool reaches the next one
 		bufs = newBufferPool(c02Quiet, 2, 64)
+		if c.XGet || c.YGet {
+			// a GET asks the pool for a whole BlockSize buffer: hand out preallocated ones (their
+			// first bytes cleared, so that every execution starts from the same memory contents)
+			for len(c02BigBufs) < 4 {
+				c02BigBufs = append(c02BigBufs, make([]byte, BlockSize))
+			}
+			next := 0
+			for _, b := range c02BigBufs {
+				for i := 0; i < 64; i++ {
+					b[i] = 0
+				}
+			}
+			bufs.Pool.New = func() interface{} {
+				if next >= len(c02BigBufs) {
+					panic("c02: more than 4 block buffers allocated in one execution")
+				}
+				next++
+				return c02BigBufs[next-1]
+			}
+		}
 		defer func() { bufs = c02Pool }()
 		// the earlier request
 		preAnswered, preDone := false, true
@@ -987,7 +1035,13 @@ func c02SharedRun(r *vrep.Report, base string, c c02Shared) (int, int64) {
 			started = true
 			vsched.GoNamed("PUT-Y", func() {
 				rw := &c02RW{onCode: func(code int) { codeY = code }}
-				e.rtr.ServeHTTP(rw, httptest.NewRequest("PUT", "/"+HY, bytes.NewReader(Y)))
+				if c.YGet {
+					rw.point = true
+					getY = rw
+					e.rtr.ServeHTTP(rw, httptest.NewRequest("GET", "/"+HW, nil))
+				} else {
+					e.rtr.ServeHTTP(rw, httptest.NewRequest("PUT", "/"+HY, bytes.NewReader(Y)))
+				}
 				codeY = rw.code
 				retY = true
 			})
@@ -1003,7 +1057,13 @@ func c02SharedRun(r *vrep.Report, base string, c c02Shared) (int, int64) {
 		}
 		vsched.GoNamed("PUT-X", func() {
 			rw := &c02RW{onCode: func(code int) { codeX = code; npts = len(vfs.ExecPoints()) }}
-			e.rtr.ServeHTTP(rw, httptest.NewRequest("PUT", "/"+HX, bytes.NewReader(X)))
+			if c.XGet {
+				rw.point = true
+				getX = rw
+				e.rtr.ServeHTTP(rw, httptest.NewRequest("GET", "/"+HW, nil))
+			} else {
+				e.rtr.ServeHTTP(rw, httptest.NewRequest("PUT", "/"+HX, bytes.NewReader(X)))
+			}
 			codeX = rw.code
 			retX = true
 			if !started {
@@ -1049,8 +1109,33 @@ func c02SharedRun(r *vrep.Report, base string, c c02Shared) (int, int64) {
 			r.Outcome("shared:a-handler-never-returned-after-answering")
 		}
 		rp := vsched.ReplayInfo(opts, x)
-		outX, shapeX, badX := c02Judge(scn, roots, init, X, HX, codeX)
-		outY, _, badY := c02Judge(scn, roots, init, Y, HY, codeY)
+		// a GET that reports success delivered exactly the stored block (C01); whether a GET
+		// succeeds at all is not demanded here
+		for who, g := range map[string]*c02RW{"X": getX, "Y": getY} {
+			if g == nil {
+				continue
+			}
+			switch {
+			case g.code == 200 && bytes.Equal(g.body.Bytes(), W):
+				r.Outcome("shared:GET:200 with the stored block")
+			case g.code == 200:
+				r.Outcome("shared:GET:200 with OTHER content")
+				r.Violation("get-success-with-wrong-data:shared:"+who+":prelude="+c.Prelude,
+					fmt.Sprintf("%s: GET /%s (request %s; stored intact, %q) answered 200 with %q while the other request ran\nschedule: %v",
+						c.name(), HW, who, W, c02Excerpt(g.body.Bytes()), x.Trace()), rp)
+			default:
+				r.Outcome(fmt.Sprintf("shared:GET:%d", g.code))
+			}
+		}
+		jX, jHX, jY, jHY := X, HX, Y, HY
+		if c.XGet {
+			jX, jHX, codeX = W, HW, 0
+		}
+		if c.YGet {
+			jY, jHY, codeY = W, HW, 0
+		}
+		outX, shapeX, badX := c02Judge(scn, roots, init, jX, jHX, codeX)
+		outY, _, badY := c02Judge(scn, roots, init, jY, jHY, codeY)
 		r.Outcome("shared:X:" + outX)
 		r.Outcome("shared:Y:" + outY)
 		r.Distinct(fmt.Sprintf("%s k=%d | %d %d | %s", c.name(), c.K, codeX, codeY, shapeX))
@@ -1083,6 +1168,17 @@ func c02SharedScenarios() []c02Shared {
 		for _, sy := range []int{5, 3} {
 			for _, ser := range []bool{true, false} {
 				if !vrep.Thorough() && (pre == "get404" || (pre == "wrong-content" && sy == 3)) {
+					continue
+				}
+				if only := os.Getenv("VERIF_C02_SHARED"); only == "get" {
+					// C01's view: at least one of the two requests is a GET
+					if sy == 5 {
+						out = append(out, c02Shared{Kind: "shared", Prelude: pre, SizeY: sy, Serialize: ser, Bound: bound, YGet: true})
+						out = append(out, c02Shared{Kind: "shared", Prelude: pre, SizeY: sy, Serialize: ser, Bound: bound, XGet: true})
+						if !ser {
+							out = append(out, c02Shared{Kind: "shared", Prelude: pre, SizeY: sy, Serialize: ser, Bound: bound, XGet: true, YGet: true})
+						}
+					}
 					continue
 				}
 				out = append(out, c02Shared{Kind: "shared", Prelude: pre, SizeY: sy, Serialize: ser, Bound: bound})
@@ -1120,7 +1216,12 @@ func TestVerifC02(t *testing.T) {
 	}
 	ctxlog.SetLevel("panic")
 	c02Init()
-	r := vrep.New("C02", "put-faults")
+	propID, partName := "C02", "put-faults"
+	if as := os.Getenv("VERIF_C02_AS"); as != "" {
+		// the shared-pool scenarios with GET requests are C01's ("never serves ... mismatching content")
+		propID, partName = as, "concurrent-requests"
+	}
+	r := vrep.New(propID, partName)
 	defer r.Write()
 	base := filepath.Join(vrep.Scratch(), "c02")
 	defer os.RemoveAll(base)
